@@ -1,45 +1,79 @@
 """C02  Trees survive a write/read round trip through Newick, NEXUS and NeXML.
 
 Method: runtime monitoring of the real writers and readers.  Source trees are *constructed* through the
-node API (vf.bridge.build_tree, never by parsing) from DendroPy-free specs, written with
-Tree.as_string / TreeList.as_string, read back with Tree.get / TreeList.get under the matching reader
-options, and the result is extracted from the raw child lists and compared with the source spec.
+node API (vf.bridge.build_tree, never by parsing) from DendroPy-free specs, written by the library, read
+back by the library under the matching reader options, and the result is extracted from the raw child
+lists and compared with the source spec.
+
+An evaluation = (document, schema, option pair, api).
+  option pair  a point of the PRODUCT of five independent option axes (_c02_util.AXES): label options
+               {default, preserve_spaces, unquoted_underscores+preserve_spaces / preserve_underscores,
+               unquoted_underscores / preserve_underscores} x translate_tree_taxa {off, True, {Taxon: token}}
+               x rooting {as written, suppress_rooting + force-rooted / force-unrooted / default-rooted /
+               default-unrooted, rooting tokens written + reader default-rooted / default-unrooted} x
+               store_tree_weights x suppress_internal_node_taxa=False
+  api          write route, read route and object history (_c02_routes): as_string/get(data=) [plain];
+               get(..., taxon_namespace=<source namespace>); TreeList.read appended to the non-empty
+               source list; TreeList.read twice into one list; write(path=)/write_to_path + get(path=)/
+               get_from_path/get(file=<text file>); write(file=)/write_to_stream + get(file=)/
+               get_from_stream/get_from_string; Tree.yield_from_files (stream; path + file, every tree
+               twice into one namespace); DataSet.as_string + DataSet.get; the READ-BACK objects written
+               and read a second time; the source written first under ANOTHER option pair; the source
+               built and written under other labels, then renamed in place.
 
 Oracle clauses (one named clause per thing the statement lists; every failed clause is reported):
   write-error / reread-parse-error   any exception while writing or re-reading (RecursionError included)
+  write- / reread-step-budget-exceeded   a file / stream / yielder route did not come back within a step
+                                     budget thousands of times what a healthy run needs (a hang is a verdict)
   tree-count-changed                 number of trees delivered != number written
   topology-changed / child-order-changed   ordered shape differs (child-order when the unordered,
                                      taxon-labelled shape is still the same)
   taxon-{changed,lost,gained}        taxon label of a node (leaf or internal) differs
-  node-label-{changed,lost,gained}   label of an *internal* node differs; leaf-node-label-gained
+  taxon-not-in-namespace             a node's Taxon object is not a member (identity) of the tree's namespace
+  node-label-{changed,lost,gained}   label of an *internal* node differs
   length-changed                     edge length differs (== on numbers, None only equals None)
   rooting-changed                    is_rooted (None / True / False) differs
   namespace-changed                  label list of the namespace differs (as a list for NEXUS and NeXML,
-                                     as a multiset for Newick)
+                                     as a multiset for Newick); the same demand when the text is read into the
+                                     populated source namespace or twice into one list: every label ONCE
+  namespace-not-the-given-one, trees-already-in-the-list-changed, dataset-structure-changed   (routes)
+  implied clauses (not words of the statement, consequences of it): leaf-node-label-gained (a leaf must
+  not acquire a node label it did not have), tree-namespace-not-the-list's.
 Allowed normalisations, NeXML only: missing ROOT-edge length -> 0, undefined rooting -> unrooted.
+Tree / TreeList / TaxonNamespace labels are set (they are parsed text: NEXUS tree names, NeXML label
+attributes) but have no clause of their own - the statement does not list them; a label that makes the
+document unreadable or changes a listed thing fails the clause it breaks, a label that merely comes back
+different is recorded as a note.  Tree weights likewise (compared, recorded only).
 
 Mechanism keys (fault localisation is itself done by running the real code on smaller documents):
-  `<schema>|<clause>[|<ExcClass>|<library function>]|char:<name>@<positions>[|opts:<pair>]`
+  `<schema>|<clause>[|<ExcClass>|<library function>][|tree-label]|char:<name>@<positions>[|opts:<axes>]`
       a single character of a single label explains the failure: the label fails on its own in a minimal
       probe document (2-3 leaves, all lengths present) while the same document with a harmless label
       (control) does not fail that clause, and the character fails on its own in the listed positions
-      (alone / first / middle / last; `any-position` = all that the grammar allows);
+      (alone / first / middle / last; `any-position` = all that the grammar allows); `tree-label` when the
+      label names a tree rather than a taxon / node;
   `...|no-single-char:<label class>` the label fails on its own but none of its characters does;
-  `<schema>|<clause>|<discriminator>[|<label class>][|<degenerate shape features>][|opts:<pair>]` otherwise.
-`opts:` appears only when the same thing survives under the default options.  After the labels that fail
-on their own have been reported, the document is re-run with those labels replaced by harmless ones, and
-then with every taxonless leaf given a taxon, so that a second root cause (lengths, rooting, structure) is
-neither masked by the first nor blamed on it.
+  `<schema>|<clause>|<discriminator>[|<label class>][|<degenerate shape features>][|opts:<axes>][|route:<route>]`
+      otherwise.
+`opts:` names the option axes WITHOUT which the failure does not happen (every non-default axis is reset
+on its own and the real code re-run); nothing when the failure survives under the default options.
+`route:` appears when the plain route (the control) does not fail that clause for the same document and
+options.  Degenerate features are those of the tree the failed clause names (`other-tree:<feature>` for the
+other trees of the list).  After the labels that fail on their own have been reported, the document is
+re-run with those labels replaced by harmless ones, then without object labels, then with every taxonless
+leaf given a taxon, so that a second root cause (lengths, rooting, structure) is neither masked by the
+first nor blamed on it.
 
 Soundness limits actually implemented (never generated, because the format cannot represent them or the
 option pair cannot round-trip by construction): leaf node labels; a node with both a taxon and a node
 label (Newick/NEXUS: one token per node); internal taxa unless the reader is told
 suppress_internal_node_taxa=False (and then no internal node labels); Newick documents whose namespace
 has taxa that are on no tree, or with zero trees; unquoted_underscores without preserve_spaces when a
-label contains a space; suppress_rooting only with the matching force-* reader and a uniformly rooted /
-unrooted list; labels outside the grammar of the statement (empty, leading/trailing blank, control
-characters, non-letter non-ASCII, two labels equal up to case).  Tree weights are compared under
-store_tree_weights but only *recorded* (the statement does not list them).  Tree labels are not varied.
+label contains a space; suppress_rooting only with a reader directive that restores the state of a
+uniformly rooted / unrooted list; reader default-* with written tokens only when every tree has a defined
+rooting; translate tokens (dict form) never equal to a label of the document; labels outside the grammar
+of the statement (empty, leading/trailing blank, control characters, non-letter non-ASCII, two labels equal
+up to case); files only in text mode, path routes only with labels the locale encoding can represent.
 Degenerate documents (a single unlabelled node, taxonless leaves, empty namespace / list, depth >= 300) are
 run as directed cases (taxonless leaves also at a low rate in random documents) and are named in the key.
 """
@@ -50,6 +84,7 @@ import re
 from .. import ref, gen, core
 from ..mon.hooks import Hooks
 from . import _c02_util as U
+from . import _c02_routes as R
 
 PROP = "C02"
 LEVEL = "exploration"
@@ -57,31 +92,58 @@ TECHNIQUE = "reference-model comparison after a real write/read round trip, with
 LEVEL_TEXT = "exploration"
 LEVEL_NOTE = ("held on the documents explored; every special character is tried in every position as a directed "
               "case, the rest is seeded random exploration")
-RULE = ("cases = directed witnesses | one special character x position x role x schema x option pair | token-like "
-        "labels | digit-only label permutations | all shapes n<=4 (quick) / n<=5 (thorough) x rooting x length pattern | "
-        "seeded random tree lists (0-5 trees, labels from the statement's grammar, mixed lengths, extra namespace "
-        "members, internal labels / internal taxa); an evaluation = one write + re-read + staged comparison; "
-        "non-trivial = the document has a tree with >= 2 leaves or a label with a non-alphanumeric character; "
-        "distinct = distinct (schema, option pair, API, document)")
+RULE = ("cases = directed witnesses | one special character x position x role (taxon, internal taxon, node label, tree "
+        "label) x schema x label-option pair (also crossed with TRANSLATE) | token-like labels | digit-only label "
+        "permutations | all shapes n<=4 (quick) / n<=5 (thorough) x rooting x length pattern x every consistent reader "
+        "rooting directive | every route / object history x schema x label-option pair on documents with underscores, "
+        "blanks, quotes, non-ASCII letters | seeded random tree lists (0-5 trees, labels from the statement's grammar, "
+        "mixed lengths, extra namespace members, internal labels / internal taxa, tree / list / namespace labels), each "
+        "evaluated once through the plain route and once through a random route / history, both under random points of "
+        "the option product; an evaluation = one write + re-read + staged comparison; non-trivial = the document has a "
+        "tree with >= 2 leaves or a label with a non-alphanumeric character; distinct = distinct (schema, option pair, "
+        "api, document)")
 REACH = ["nexusprocessing:escape_nexus_token", "newickwriter:NewickWriter._render_node_tag",
          "newickwriter:NewickWriter._write_tree", "tokenizer:Tokenizer.__next__",
          "newickreader:NewickReader._parse_tree_node_description", "newickreader:NewickReader._parse_tree_rooting_state",
          "nexusprocessing:NexusTaxonSymbolMapper.lookup_taxon_symbol", "nexuswriter:NexusWriter._write_trees_block",
          "nexuswriter:NexusWriter._set_and_write_translate_block", "nexusreader:NexusReader._parse_trees_block",
          "nexusreader:NexusReader._parse_translate_statement", "nexusreader:NexusReader._parse_taxlabels_statement",
-         "nexmlwriter:NexmlWriter._write_tree", "nexmlwriter:_protect_attr", "nexmlreader:_NexmlTreeParser.build_tree"]
-MIN_EVENTS = {"roundtrip": (25000, 300000), "roundtrip:newick": (8000, 100000), "roundtrip:nexus": (8000, 100000),
-              "roundtrip:nexml": (3000, 40000), "node-compared": (150000, 5000000), "tree-compared": (30000, 400000),
-              "roundtrip-pair:translate": (1000, 10000), "roundtrip-pair:uu+ps/pu": (2000, 20000),
-              "roundtrip-pair:internal-taxa": (1000, 10000), "weight-compared": (1000, 20000),
-              "hook:Tree.as_string:return": (20000, 100000), "hook:TreeList.as_string:return": (5000, 50000),
-              "hook:Tree.get:return": (15000, 100000), "hook:TreeList.get:return": (5000, 50000),
-              "hook:NewickWriter._render_node_tag:return": (100000, 5000000),
-              "hook:nexusprocessing.escape_nexus_token:return": (100000, 5000000),
-              "hook:Tokenizer.__next__:return": (500000, 20000000)}
+         "nexmlwriter:NexmlWriter._write_tree", "nexmlwriter:_protect_attr", "nexmlreader:_NexmlTreeParser.build_tree",
+         "newickyielder:NewickTreeDataYielder._yield_items_from_stream",
+         "nexusyielder:NexusTreeDataYielder._yield_items_from_stream",
+         "nexmlyielder:NexmlTreeDataYielder._yield_items_from_stream",
+         "basemodel:Serializable.write_to_path", "basemodel:Serializable.write_to_stream",
+         "basemodel:Deserializable.get_from_path", "basemodel:Deserializable.get_from_stream",
+         "treecollectionmodel:TreeList._parse_and_add_from_stream", "datasetmodel:DataSet._parse_and_create_from_stream"]
+MIN_EVENTS = {"roundtrip": (55000, 220000), "roundtrip:newick": (18000, 85000), "roundtrip:nexus": (28000, 95000),
+              "roundtrip:nexml": (8000, 40000), "node-compared": (600000, 8500000), "tree-compared": (85000, 400000),
+              # per option-axis value (the pair of an evaluation is a point of the product of the axes)
+              "roundtrip-pair:default": (15000, 70000), "roundtrip-pair:ps/default": (6500, 25000),
+              "roundtrip-pair:uu+ps/pu": (9000, 28000), "roundtrip-pair:uu/pu": (7000, 18000),
+              "roundtrip-pair:translate": (8000, 19000), "roundtrip-pair:translate-dict": (3500, 14000),
+              "roundtrip-pair:norooting/force-rooted": (900, 5500), "roundtrip-pair:norooting/force-unrooted": (900, 5500),
+              "roundtrip-pair:norooting/default-rooted": (900, 5500), "roundtrip-pair:norooting/default-unrooted": (900, 5500),
+              "roundtrip-pair:default-rooted": (2400, 14000), "roundtrip-pair:default-unrooted": (2400, 14000),
+              "roundtrip-pair:weights": (6000, 40000), "weight-compared": (12000, 85000),
+              "roundtrip-pair:internal-taxa": (12000, 50000), "roundtrip-crossed-options": (17000, 75000),
+              "roundtrip-with-tree-label": (9000, 38000),
+              # routes / object histories
+              "roundtrip-route:src-ns": (1100, 7500), "roundtrip-route:read-append": (750, 5000),
+              "roundtrip-route:read-twice": (800, 5000), "roundtrip-route:path": (800, 5000),
+              "roundtrip-route:stream": (650, 4200), "roundtrip-route:yield": (900, 6000),
+              "roundtrip-route:yield-files": (400, 2500), "roundtrip-route:dataset": (500, 3400),
+              "roundtrip-route:rewrite": (1500, 10000), "roundtrip-route:prewrite": (850, 5500),
+              "roundtrip-route:relabelled": (800, 5000),
+              "hook:Tree.as_string:return": (30000, 80000), "hook:TreeList.as_string:return": (24000, 140000),
+              "hook:Tree.get:return": (30000, 75000), "hook:TreeList.get:return": (20000, 120000),
+              "hook:NewickWriter._render_node_tag:return": (550000, 7500000),
+              "hook:nexusprocessing.escape_nexus_token:return": (600000, 7000000),
+              "hook:Tokenizer.__next__:return": (3000000, 32000000)}
 ASSUMPTIONS = ["source trees are built through Tree/Node constructors and add_child (no parser involved)",
                "both sides are read from the raw _child_nodes lists into DendroPy-free specs before comparison",
-               "'matching reader options' are the pairs listed in vf/props/_c02_util.PAIRS"]
+               "'matching reader options' are the points of the option product vf/props/_c02_util.AXES that fit the "
+               "document (doc_fits)",
+               "scratch files are written and read in text mode with the locale's encoding (the mode write(path=) uses)"]
 CASE_TIMEOUT = 120
 
 KNOWN_BAD = {"newick": set(), "nexus": set(), "nexml": set()}   # per process; only orders the probing
@@ -91,10 +153,15 @@ ALLCHARS = U.SPECIALS + U.NONASCII
 
 
 # ======================================================================================= cases
-def _schema_pairs(label_pairs_only=True):
+# option pairs under which every label class is driven as a directed case: the four label-option values,
+# each also crossed with a TRANSLATE statement (NEXUS), and the dict form of translate_tree_taxa
+CHAR_PAIRS = tuple(p for p in U.LABEL_PAIRS if "translate-dict" not in p and p != "ps/default+translate") + ("translate-dict",)
+
+
+def _schema_pairs():
     out = []
     for schema in U.SCHEMAS:
-        for pair in (U.LABEL_PAIRS if label_pairs_only else U.PAIRS):
+        for pair in CHAR_PAIRS:
             if schema in U.PAIRS[pair]["schemas"]:
                 out.append((schema, pair))
     return out
@@ -103,7 +170,8 @@ def _schema_pairs(label_pairs_only=True):
 DIRECTED = ("newick-equals", "newick-backslash", "nexus-equals", "nexus-backslash", "nexml-nonroot-missing-length",
             "nexml-ampersand", "nexml-less-than", "nexml-double-quote", "nexml-backslash", "nexml-tab",
             "nexml-non-ascii", "quoted-punctuation-alone", "single-unlabelled-node", "empty-namespace",
-            "empty-list", "taxonless-leaves", "deep-caterpillar")
+            "empty-list", "taxonless-leaves", "deep-caterpillar", "tree-label-asterisk", "many-taxa", "twelve-trees",
+            "depth-threshold", "rooting-defaults")
 
 
 def cases(tier, seed):
@@ -125,7 +193,10 @@ def cases(tier, seed):
                 if n == 5 and (idx + U.SCHEMAS.index(schema)) % 3 != seed % 3:
                     continue
                 yield {"kind": "shape", "n": n, "idx": idx, "schema": schema, "seed": seed}
-    nrand = 40000 if tier == "quick" else 280000
+    for schema in U.SCHEMAS:
+        for variant in R.ALL_VARIANTS + ("prewrite",):
+            yield {"kind": "routes", "schema": schema, "variant": variant, "seed": seed}
+    nrand = 30000 if tier == "quick" else 210000
     for i in range(nrand):
         yield {"kind": "random", "i": i, "seed": seed}
 
@@ -206,7 +277,9 @@ def label_roles(doc):
                 roles.setdefault((n[0], "itaxon" if n[3] else "taxon"), True)
             if n[1] is not None:
                 roles.setdefault((n[1], "node"), True)
-    on_tree = set(l for l, r in roles if r != "node")
+        if t.get("label") is not None:
+            roles.setdefault((t["label"], "treelabel"), True)
+    on_tree = set(l for l, r in roles if r not in ("node", "treelabel"))
     for l in doc["ns"]:
         if l not in on_tree:
             roles.setdefault((l, "taxon"), True)
@@ -218,14 +291,16 @@ def baseline_pair(schema, role):
 
 
 def probe_pair(schema, pair, role):
-    """option pair under which a minimal probe of `role` is run for a doc that used `pair`."""
+    """option pair under which a minimal probe of `role` is run for a doc that used `pair`: the axes that
+    decide how a label is rendered (label options, translate), plus the reader's internal-taxa switch
+    when the label sits on an internal node as a taxon."""
+    pp = U.restrict(pair, ("label", "translate"))
     if role == "itaxon" and schema != "nexml":
-        return pair if U.PAIRS[pair].get("itaxa") else "internal-taxa"
-    if pair in U.LABEL_PAIRS:
-        return pair
-    if pair == "translate+internal-taxa":
-        return "translate"
-    return "default"
+        pp = U.with_axis(pp, "itaxa", "internal-taxa")
+    return pp
+
+
+ROLE_TAG = {"treelabel": "|tree-label"}       # older roles are not named in keys (keys stay stable)
 
 
 def what_of(fail):
@@ -235,17 +310,62 @@ def what_of(fail):
     return "%s (%s)" % (fail[0], ", ".join("%s=%r" % kv for kv in sorted(d.items()) if kv[0] != "tree"))
 
 
+EXC_CLAUSES = ("reread-parse-error", "write-error", "reread-step-budget-exceeded", "write-step-budget-exceeded")
+
+
 def fail_key(schema, f, feats=None, opts=""):
     clause, disc, det = f
     parts = [schema, clause]
     if disc:
         parts.append(disc)
     if clause.startswith("taxon-") or clause.startswith("node-label-"):
-        srcl = det.get("source")
-        parts.append("unlabelled" if srcl is None else U.label_class(srcl))
+        if "source" in det:
+            srcl = det.get("source")
+            parts.append("unlabelled" if srcl is None else U.label_class(srcl))
     if feats:
         parts.append(feats)
     return "|".join(parts) + opts
+
+
+def same_failure(fails, want):
+    return any((f[0], f[1]) in want for f in fails)
+
+
+def minimal_opts(ctx, doc, schema, pair, api, fails):
+    """`|opts:<axes>` = the option axes without which the failure does not happen: every non-default axis
+    is reset on its own (the real code is re-run); an axis the doc cannot do without (internal taxa) is not
+    named.  Empty when the failure survives under the default options."""
+    want = set((f[0], f[1]) for f in fails)
+    cur, necessary = pair, []
+    for axis in U.nondefault_axes(pair):
+        cand = U.with_axis(cur, axis, U.AXIS_DEFAULT[U.AXIS_NAMES.index(axis)])
+        if not U.doc_fits(doc, schema, cand):
+            continue
+        ctx.ev("roundtrip-with-one-option-axis-reset")
+        f2, _ = U.judge(doc, schema, cand, api)
+        if same_failure(f2, want):
+            cur = cand
+        else:
+            necessary.append(axis)
+    return ("|opts:%s" % U.restrict(pair, necessary)) if necessary else ""
+
+
+def probe_opts(ctx, label, c, role, schema, pp):
+    """the same minimisation for a label (or one character c of it) that fails in a minimal probe."""
+    cur, necessary = pp, []
+    for axis in U.nondefault_axes(pp):
+        if axis == "itaxa":
+            continue
+        cand = U.with_axis(cur, axis, U.AXIS_DEFAULT[U.AXIS_NAMES.index(axis)])
+        if c is None:
+            still = U.probe(label, role, schema, cand, ctx.events) is not None
+        else:
+            still = any(cc == c for cc, pos, r in U.char_culprits(label, role, schema, cand, ctx.events))
+        if still:
+            cur = cand
+        else:
+            necessary.append(axis)
+    return ("|opts:%s" % U.restrict(pp, necessary)) if necessary else ""
 
 
 def classify_labels(ctx, doc, schema, pair, batch, culprit_labels):
@@ -255,30 +375,54 @@ def classify_labels(ctx, doc, schema, pair, batch, culprit_labels):
         if res is None:
             continue
         culprit_labels[label] = True
-        base = baseline_pair(schema, role)
+        tag = ROLE_TAG.get(role, "")
         cul = U.char_culprits(label, role, schema, pp, ctx.events)
         if cul:
-            bcul = cul if pp == base else U.char_culprits(label, role, schema, base, ctx.events)
-            bset = set(c for c, pos, r in bcul)
             for c, pos, (pf, pdoc, pout) in cul:
                 KNOWN_BAD[schema].add(c)
-                opts = "" if c in bset else "|opts:%s" % pp
-                disc = ("|" + pf[1]) if pf[0] in ("reread-parse-error", "write-error") else ""
-                key = "%s|%s%s|char:%s@%s%s" % (schema, pf[0], disc, U.char_name(c), pos, opts)
+                opts = probe_opts(ctx, label, c, role, schema, pp)
+                disc = ("|" + pf[1]) if pf[0] in EXC_CLAUSES else ""
+                key = "%s|%s%s%s|char:%s@%s%s" % (schema, pf[0], disc, tag, U.char_name(c), pos, opts)
                 report(ctx, key, "%s label %r: %s" % (role, pdoc_label(pdoc, role), what_of(pf)), pdoc, schema, pp,
-                       "tree", pf, pout)
+                       U.api_for(pdoc), pf, pout)
         else:
             pf, pdoc, pout = res
-            opts = ""
-            if pp != base and U.probe(label, role, schema, base, ctx.events) is None:
-                opts = "|opts:%s" % pp
-            disc = ("|" + pf[1]) if pf[0] in ("reread-parse-error", "write-error") else ""
-            key = "%s|%s%s|no-single-char:%s%s" % (schema, pf[0], disc, U.label_class(label), opts)
-            report(ctx, key, "%s label %r: %s" % (role, label, what_of(pf)), pdoc, schema, pp, "tree", pf, pout)
+            opts = probe_opts(ctx, label, None, role, schema, pp)
+            disc = ("|" + pf[1]) if pf[0] in EXC_CLAUSES else ""
+            key = "%s|%s%s%s|no-single-char:%s%s" % (schema, pf[0], disc, tag, U.label_class(label), opts)
+            report(ctx, key, "%s label %r: %s" % (role, label, what_of(pf)), pdoc, schema, pp, U.api_for(pdoc), pf, pout)
+
+
+def split_on_reduced(ctx, doc, doc2, schema, pair, api, fails, out, depth, tag):
+    """doc2 = doc without one feature.  What still fails there is classified there; what no longer fails is
+    reported for doc with the feature named."""
+    fails2, out2 = U.judge(doc2, schema, pair, api, ctx.events)
+    common = set((f[0], f[1]) for f in fails2)
+    if fails2:
+        classify(ctx, doc2, schema, pair, api, fails2, out2, depth + 1)
+    for f in fails:
+        if (f[0], f[1]) not in common:
+            report(ctx, fail_key(schema, f, tag(f)), what_of(f), doc, schema, pair, api, f, out)
 
 
 def classify(ctx, doc, schema, pair, api, fails, out, depth=0):
     """name the mechanism(s) behind a failed round trip (see module docstring)."""
+    # ---- 0. a route / object history other than the plain one: the plain route is the control.  What fails
+    #         there too is classified there; the rest is the route's own doing and is keyed `|route:<name>`
+    if api not in R.BASIC:
+        plain = R.basic_of(api)
+        ctx.ev("roundtrip-plain-route-control")
+        bf, bout = U.judge(doc, schema, pair, plain)
+        common = set((f[0], f[1]) for f in bf)
+        if bf:
+            classify(ctx, doc, schema, pair, plain, bf, bout, depth)
+        rest = [f for f in fails if (f[0], f[1]) not in common]
+        if rest:
+            opts = minimal_opts(ctx, doc, schema, pair, api, rest)
+            for f in rest:
+                key = fail_key(schema, f, U.doc_features(doc, f), opts) + "|route:%s" % R.route_tag(api)
+                report(ctx, key, what_of(f), doc, schema, pair, api, f, out)
+        return
     # ---- 1. labels that fail on their own in a minimal document, and the character that does it
     culprit_labels = {}
     todo = [(label, role) for label, role in label_roles(doc)
@@ -308,33 +452,32 @@ def classify(ctx, doc, schema, pair, api, fails, out, depth=0):
         if fails2:
             classify(ctx, doc2, schema, pair, api, fails2, out2, depth + 1)
         return
-    # ---- 2. degenerate shape features (taxonless leaves ...): what still fails without them?
-    feats = U.doc_features(doc)
-    if feats and depth < 3:
+    # ---- 2. labels of the tree / list / namespace OBJECTS (no clause of their own): what fails without them?
+    if depth < 3:
+        doc2 = U.without_tree_labels(doc)
+        if doc2 is not None:
+            ctx.ev("roundtrip-after-dropping-object-labels")
+            kinds = "+".join(k for k, on in (("tree-label", bool(U.tree_labels(doc))), ("list-label", bool(doc.get("list_label"))),
+                                             ("namespace-label", bool(doc.get("ns_label")))) if on)
+            split_on_reduced(ctx, doc, doc2, schema, pair, api, fails, out, depth,
+                             lambda f: "+".join(x for x in (U.doc_features(doc, f), kinds) if x))
+            return
+    # ---- 3. degenerate shape features (taxonless leaves ...): what still fails without them?
+    if U.doc_features(doc) and depth < 3:
         doc2 = U.fill_taxonless(doc)
         if doc2 is not None and U.doc_fits(doc2, schema, pair):
             ctx.ev("roundtrip-after-labelling-taxonless-leaves")
-            fails2, out2 = U.judge(doc2, schema, pair, api, ctx.events)
-            common = set((f[0], f[1]) for f in fails2)
-            if fails2:
-                classify(ctx, doc2, schema, pair, api, fails2, out2, depth + 1)
-            for f in fails:
-                if (f[0], f[1]) not in common:
-                    report(ctx, fail_key(schema, f, feats), what_of(f), doc, schema, pair, api, f, out)
+            split_on_reduced(ctx, doc, doc2, schema, pair, api, fails, out, depth, lambda f: U.doc_features(doc, f))
             return
-    # ---- 3. clause + discriminator
-    opts = ""
-    if pair != "default" and U.doc_fits(doc, schema, "default"):
-        bf, _ = U.judge(doc, schema, "default", api)
-        if not bf:
-            opts = "|opts:%s" % pair
+    # ---- 4. clause + discriminator
+    opts = minimal_opts(ctx, doc, schema, pair, api, fails)
     for f in fails:
-        report(ctx, fail_key(schema, f, feats, opts), what_of(f), doc, schema, pair, api, f, out)
+        report(ctx, fail_key(schema, f, U.doc_features(doc, f), opts), what_of(f), doc, schema, pair, api, f, out)
 
 
 def pdoc_label(pdoc, role):
-    for l in U.all_labels(pdoc):
-        if l not in ("za", "zb", "zq", "zr"):
+    for l in U.all_labels(pdoc) + U.tree_labels(pdoc):
+        if l not in ("za", "zb", "zq", "zr", "zt"):
             return l
     return None
 
@@ -342,30 +485,47 @@ def pdoc_label(pdoc, role):
 def nontrivial(doc):
     if any(len(ref.leaves(t["spec"])) >= 2 for t in doc["trees"]):
         return True
-    return any(U.is_special(c) for l in U.all_labels(doc) for c in l)
+    return any(U.is_special(c) for l in U.all_labels(doc) + U.tree_labels(doc) for c in l)
 
 
 def evaluate(ctx, doc, schema, pair, api, sample=False):
     """one oracle evaluation."""
     if not U.doc_fits(doc, schema, pair):
         raise core.HarnessBug("generated a doc that does not fit %s/%s" % (schema, pair))
-    for l in U.all_labels(doc):
+    for l in U.all_labels(doc) + U.tree_labels(doc):
         if not U.label_ok(l):
             raise core.HarnessBug("label outside the statement's grammar: %r" % l)
     ctx.ev("roundtrip")
     ctx.ev("roundtrip:%s" % schema)
-    ctx.ev("roundtrip-pair:%s" % pair)
+    axes = U.PAIRS[pair]["axes"]
+    nd = [v for v, d in zip(axes, U.AXIS_DEFAULT) if v != d]
+    for v in nd:
+        ctx.ev("roundtrip-pair:%s" % v)          # per option axis value (the pair is a point of the product)
+    if not nd:
+        ctx.ev("roundtrip-pair:default")
+    if len(nd) >= 2:
+        ctx.ev("roundtrip-crossed-options")
+    if api not in R.BASIC:
+        ctx.ev("roundtrip-route:%s" % R.route_tag(api))
+    has_tl = bool(U.tree_labels(doc))
+    if has_tl:
+        ctx.ev("roundtrip-with-tree-label")
     fails, out = U.judge(doc, schema, pair, api, ctx.events)
     if nontrivial(doc):
         ctx.nontrivial((schema, pair, api, U.doc_text(doc)))
     if sample:
         ctx.sample({"schema": schema, "pair": pair, "api": api, "doc": U.doc_text(doc),
                     "written": (out.text or "")[:400], "failed_clauses": [f[0] for f in fails]})
-    if not fails and pair == "weights":
-        for t, g in zip(doc["trees"], out.got):
+    if not fails and axes[3]:
+        for t, g in zip(out.expect, out.got):
             ctx.ev("weight-compared")
             if t.get("weight") is not None and g[2] != t["weight"]:
                 ctx.note("weight-differs(recorded, not part of the statement): %r->%r" % (t["weight"], g[2]))
+    if not fails and has_tl and schema != "newick":
+        # the statement does not list tree labels: a difference is recorded, never judged
+        for t, g in zip(out.expect, out.got):
+            if t.get("label") is not None and g[5] != t["label"]:
+                ctx.note("tree-label-differs(recorded, not part of the statement):%s" % schema)
     if fails:
         ctx.ev("roundtrip-with-failed-clause")
         classify(ctx, doc, schema, pair, api, fails, out)
@@ -434,14 +594,68 @@ def run_directed(ctx, name):
         for depth in (400, 1200):
             for schema in U.SCHEMAS:
                 evaluate(ctx, one_tree_doc(caterpillar(depth), True), schema, "default", "tree")
+    elif name == "tree-label-asterisk":
+        # a tree NAMED '*' (NEXUS: "TREE * name = ..." marks the default tree) and other names that are NEXUS syntax
+        for lab in ("*", "=", ";", "TREE", "END", "best tree", "a=b", "'", "[x]", "1", "2"):
+            for schema in ("nexus", "nexml"):
+                for doc in U.probe_docs(lab, "treelabel"):
+                    evaluate(ctx, doc, schema, "default", U.api_for(doc), sample=(lab == "*" and schema == "nexus"))
+    elif name == "many-taxa":
+        # 120 taxa: taxon numbers / translate tokens with three digits, labels that are numbers of OTHER taxa
+        rng = random.Random(7)
+        n = 120
+        for style in ("digits", "plain"):
+            names = [str((i * 7) % n + 1) for i in range(n)] if style == "digits" else ["T%d" % i for i in range(n)]
+            spec = put_lengths(gen.random_spec(rng, n, p_poly=0.3, names=list(names)), rng, "all")
+            order = list(names)
+            rng.shuffle(order)
+            doc = {"ns": order, "trees": [{"spec": spec, "rooted": True}, {"spec": gen.shuffle_children(spec, rng), "rooted": False}]}
+            for pair in ("default", "translate", "translate-dict", "uu+ps/pu+translate"):
+                evaluate(ctx, doc, "nexus", pair, "list")
+            evaluate(ctx, doc, "nexml", "default", "list")
+            evaluate(ctx, dict(doc, ns=list(names)), "newick", "default", "list")
+    elif name == "twelve-trees":
+        # tree names '1' .. '12' (two digits), some trees named by the user with the NUMBER of another tree
+        rng = random.Random(11)
+        names = ["A", "B", "C", "D", "E"]
+        trees = []
+        for k in range(12):
+            spec = put_lengths(gen.random_spec(rng, 5, names=list(names)), rng, "all")
+            trees.append({"spec": spec, "rooted": rng.choice([True, False]), "label": {3: "12", 7: "1", 9: "t 9"}.get(k)})
+        doc = {"ns": names, "trees": trees}
+        for schema in U.SCHEMAS:
+            for api in ("list", "list:read-twice", "list:rewrite"):
+                evaluate(ctx, doc, schema, "default", api)
+        evaluate(ctx, doc, "nexus", "translate+default-rooted", "list")
+        evaluate(ctx, doc, "newick", "default-unrooted", "list")
+    elif name == "depth-threshold":
+        # where does the recursive-descent reader give up?  recorded only (the 1200-level witness is judged above)
+        for schema in ("newick", "nexml"):
+            lo, hi = 400, 1200
+            while hi - lo > 25:
+                mid = (lo + hi) // 2
+                f, _ = U.judge(one_tree_doc(caterpillar(mid), True), schema, "default", "tree")
+                lo, hi = (lo, mid) if f else (mid, hi)
+            ctx.note("smallest-failing-caterpillar-depth:%s:%s" % (schema, "none<=1200" if hi == 1200 else "%d..%d" % (lo, hi)))
+    elif name == "rooting-defaults":
+        # written rooting tokens must win over the reader's default; without tokens the default decides
+        three = lambda: S(None, [S("A", length=1.0), S("B", length=2.0), S("C", length=3.0)])
+        for schema in ("newick", "nexus"):
+            for rs in ((True, False), (False, True), (True, True), (False, False), (True, False, True)):
+                doc = {"ns": ["A", "B", "C"], "trees": [{"spec": three(), "rooted": r} for r in rs]}
+                for pair in sorted(U.PAIRS):
+                    if U.PAIRS[pair]["axes"][2] and not U.nondefault_axes(pair)[1:] and U.doc_fits(doc, schema, pair):
+                        evaluate(ctx, doc, schema, pair, "list")
     else:
         raise core.HarnessBug("unknown directed case %s" % name)
 
 
 def roles_for(schema, pair):
     roles = ["taxon", "node"]
-    if schema == "nexml" or pair in ("default", "translate"):
+    if schema == "nexml" or "translate-dict" not in pair:
         roles.append("itaxon")
+    if schema != "newick":
+        roles.append("treelabel")            # Newick has no place for a tree name
     return roles
 
 
@@ -450,10 +664,10 @@ def run_label_probe(ctx, label, schema, pair, sample=False):
     for role in roles_for(schema, pair):
         pp = pair
         if role == "itaxon" and schema != "nexml":
-            pp = "internal-taxa" if pair == "default" else "translate+internal-taxa"
+            pp = U.with_axis(pair, "itaxa", "internal-taxa")
         for doc in U.probe_docs(label, role):
             if U.doc_fits(doc, schema, pp):
-                evaluate(ctx, doc, schema, pp, "tree", sample=sample)
+                evaluate(ctx, doc, schema, pp, U.api_for(doc), sample=sample)
                 sample = False
 
 
@@ -506,6 +720,7 @@ def run_digits(ctx, case, rng):
 
 
 LENGTH_STYLES = ("none", "all", "mixed", "sci", "ints", "zeros", "rootlen")
+ROOTING_PAIRS = tuple(v[0] for v in U.AXES[2][1] if v[0])
 
 
 def put_lengths(spec, rng, style):
@@ -560,17 +775,16 @@ def run_shape(ctx, case, rng):
                     ns = ref.leaf_taxa(spec)
                 doc = {"ns": ns, "trees": [{"spec": spec, "rooted": rooted}]}
                 pairs = ["default"]
-                if rooted is True and schema != "nexml":
-                    pairs.append("norooting/force-rooted")
-                if rooted is False and schema != "nexml":
-                    pairs.append("norooting/force-unrooted")
+                if rooted is not None and schema != "nexml":
+                    # every reader rooting directive that is consistent with this tree
+                    pairs.extend(p for p in ROOTING_PAIRS if U.doc_fits(doc, schema, p))
                 for pair in pairs:
                     evaluate(ctx, doc, schema, pair, "tree", sample=(first and case["n"] == 3))
                     first = False
                 evaluate(ctx, doc, schema, "default", "list")
 
 
-def random_doc(rng, tier, schema):
+def random_doc(rng, tier, schema, want_nonascii=False):
     big = tier != "quick"
     ntrees = rng.choice([0, 1, 1, 1, 2, 3, 5]) if schema != "newick" else rng.choice([1, 1, 1, 2, 3, 5])
     nleaf = rng.choice([1, 2, 3, 4, 6, 9, 14]) if not big else rng.choice([1, 2, 3, 5, 8, 13, 25, 60])
@@ -592,6 +806,13 @@ def random_doc(rng, tier, schema):
                 return s
         return pool.fresh()
     names = [new_label() for _ in range(nleaf)]
+    if want_nonascii:
+        # file routes are where labels meet encodings: at least one label with a non-ASCII letter
+        for _ in range(20):
+            s = U.random_label(rng, "nonascii")
+            if any(ord(c) > 127 for c in s) and pool.add(s):
+                names[rng.randrange(len(names))] = s
+                break
     trees = []
     used = []
     for k in range(ntrees):
@@ -628,10 +849,22 @@ def random_doc(rng, tier, schema):
                 used.append(nd[0])
         trees.append({"spec": spec, "rooted": rng.choice([None, True, False]),
                       "weight": rng.choice([None, 1.0, 0.5, 0.25, 2, 1e-5, 3.75])})
-    if rng.random() < 0.3 and trees:
+    k = rng.random()
+    if k < 0.3 and trees:
         r = rng.choice([True, False])
         for t in trees:
             t["rooted"] = r
+    elif k < 0.5:
+        # every tree has a DEFINED rooting, mixed within the list (reader defaults must not touch them)
+        for t in trees:
+            t["rooted"] = rng.choice([True, False])
+    if rng.random() < 0.25:
+        # labels of the tree objects: NEXUS tree names, NeXML label attributes (any string of the grammar)
+        lm = rng.random()
+        for t in trees:
+            if rng.random() < 0.7:
+                t["label"] = (U.random_label(rng, "plain") if lm < 0.3 else str(rng.randint(1, 12)) if lm < 0.45
+                              else U.random_label(rng))
     if schema == "newick":
         ns = used
     else:
@@ -648,24 +881,123 @@ def random_doc(rng, tier, schema):
         doc["ns_removed"] = [[rng.randint(0, len(ns)), new_label()] for _ in range(rng.randint(1, 3))]
     if schema != "newick" and rng.random() < 0.15:
         doc["ns_reversed"] = True
+    if rng.random() < 0.1:
+        doc["ns_label"] = U.random_label(rng)
+    if rng.random() < 0.1:
+        doc["list_label"] = U.random_label(rng)
     return doc
+
+
+def for_pair(doc, pair):
+    """tree weights only travel under store_tree_weights"""
+    if U.PAIRS[pair]["axes"][3]:
+        return doc
+    return dict(doc, trees=[dict(t, weight=None) for t in doc["trees"]])
+
+
+# routes and object histories of the second evaluation of a random case (the first one is always plain)
+ROUTE_WEIGHTS = (("", 30), ("src-ns", 9), ("read-append", 6), ("read-twice", 6), ("rewrite", 10), ("prewrite", 8),
+                 ("relabelled", 6), ("path", 6), ("stream", 5), ("yield", 7), ("yield-files", 3), ("dataset", 4))
+
+
+def pick_route(rng):
+    tot = sum(w for v, w in ROUTE_WEIGHTS)
+    k = rng.random() * tot
+    for v, w in ROUTE_WEIGHTS:
+        k -= w
+        if k < 0:
+            return v
+    return ""
 
 
 def run_random(ctx, case, rng):
     schema = rng.choice(("newick", "newick", "nexus", "nexus", "nexml"))
-    doc = random_doc(rng, ctx.tier, schema)
-    fits = [p for p in U.PAIRS if U.doc_fits(doc, schema, p)]
-    if not fits:
+    variant = pick_route(rng)
+    doc = random_doc(rng, ctx.tier, schema, want_nonascii=variant in R.FILE_VARIANTS)
+    pairs = []
+    for _ in range(6):
+        p = U.random_pair(rng, doc, schema)
+        if p is not None and p not in pairs:
+            pairs.append(p)
+        if len(pairs) == 2:
+            break
+    if not pairs:
         ctx.note("random-doc-fits-no-pair")
         return
-    rng.shuffle(fits)
-    for pair in fits[:2]:
-        if pair != "weights":
-            d = dict(doc, trees=[dict(t, weight=None) for t in doc["trees"]])
+    one = len(doc["trees"]) == 1
+    # ---- first evaluation: the plain route
+    evaluate(ctx, for_pair(doc, pairs[0]), schema, pairs[0], "tree" if (one and rng.random() < 0.6) else "list",
+             sample=(case["i"] < 2))
+    # ---- second evaluation: another point of the option product, through another route / object history
+    pair = pairs[-1]
+    kind = "tree" if (one and variant not in R.LIST_ONLY and rng.random() < 0.6) else "list"
+    if variant in ("path", "yield-files") and not R.locale_encodes(U.all_labels(doc) + U.tree_labels(doc)):
+        ctx.note("path-route-skipped:label-not-encodable-in-locale")
+        variant = "stream"
+    if variant == "prewrite":
+        other = None
+        for _ in range(6):
+            q = U.random_pair(rng, doc, schema, p_default=0.2)
+            if q is not None and q != pair:
+                other = q
+                break
+        if other is None:
+            ctx.note("prewrite-without-second-pair")
+            variant = "rewrite"
         else:
-            d = doc
-        api = "tree" if (len(doc["trees"]) == 1 and rng.random() < 0.6) else "list"
-        evaluate(ctx, d, schema, pair, api, sample=(case["i"] < 2))
+            variant = "prewrite=%s" % other
+    api = kind + (":" + variant if variant else "")
+    evaluate(ctx, for_pair(doc, pair), schema, pair, api, sample=(case["i"] in (2, 3)))
+
+
+ROUTE_LABELS = ("a_b", "c d", "e_f g", "x'y", "a\u00e9b", "Q", "2", "\u0130x", "h__i", "TREE")
+
+
+def route_docs(rng):
+    """small documents with every label feature the options act on, for the directed route cases"""
+    out = []
+    for spaces in (True, False):
+        labels = [l for l in ROUTE_LABELS if spaces or " " not in l]
+        for ntrees in (1, 3):
+            trees = []
+            for k in range(ntrees):
+                spec = put_lengths(gen.random_spec(rng, len(labels), p_poly=0.3, names=list(labels)), rng, "all")
+                for nd in ref.preorder(spec):
+                    if nd[3] and nd is not spec and rng.random() < 0.5:
+                        nd[1] = rng.choice(["n_1", "0.95", "n2"] + (["n 3"] if spaces else []))
+                trees.append({"spec": spec, "rooted": (True, False, True)[k] if ntrees > 1 else rng.choice([True, False]),
+                              "weight": 0.5, "label": None if k != 1 else "best_tree"})
+            order = list(labels)
+            rng.shuffle(order)
+            out.append({"ns": order + ["Zextra"], "trees": trees})
+    return out
+
+
+def run_routes(ctx, case, rng):
+    """every route / object history x every label-option pair (and a few crossings) on documents with
+    underscores, blanks, quotes, non-ASCII letters, digits, node labels, mixed defined rooting"""
+    schema, variant = case["schema"], case["variant"]
+    pairs = [p for p in CHAR_PAIRS + ("default-unrooted", "uu+ps/pu+default-rooted+weights", "ps/default+translate+weights")
+             if schema in U.PAIRS[p]["schemas"]]
+    for doc in route_docs(rng):
+        if schema == "newick":
+            doc = dict(doc, ns=[l for l in doc["ns"] if l != "Zextra"])
+        one = len(doc["trees"]) == 1
+        for pair in pairs:
+            if not U.doc_fits(doc, schema, pair):
+                continue
+            v = variant
+            if v == "prewrite":
+                others = [q for q in pairs if q != pair and U.doc_fits(doc, schema, q)]
+                if not others:
+                    continue
+                v = "prewrite=%s" % rng.choice(others)
+            if v in ("path", "yield-files") and not R.locale_encodes(U.all_labels(doc)):
+                ctx.note("path-route-skipped:label-not-encodable-in-locale")
+                continue
+            kinds = ["list"] + (["tree"] if one and variant not in R.LIST_ONLY else [])
+            for kind in kinds:
+                evaluate(ctx, for_pair(doc, pair), schema, pair, "%s:%s" % (kind, v))
 
 
 def run_case(case, ctx):
@@ -684,6 +1016,8 @@ def run_case(case, ctx):
             run_digits(ctx, case, rng)
         elif kind == "shape":
             run_shape(ctx, case, rng)
+        elif kind == "routes":
+            run_routes(ctx, case, rng)
         elif kind == "random":
             run_random(ctx, case, rng)
         else:
